@@ -11,6 +11,7 @@ def jobs(res):
 
     def small():
         tlc.run("CodecMC", "CodecMC.cfg", cache=True, timeout=1200)
+        tlc.run("HelpersMC", "HelpersMC.cfg", cache=True, timeout=1200)
         tlc.run("UrlMC", "UrlMC.cfg", cache=True, timeout=600)
         tlc.run("UrlMC", "UrlMC_asis.cfg", cache=True, timeout=600)
         tlc.run("Repro", "Repro_asis.cfg", cache=True, timeout=3000)
